@@ -10,6 +10,7 @@ package fox
 //@ -- ---------------------------------------------------------------- C12: reset variants
 
 //@ func (*cTx).reset props C12
+//@   noalloc @C16
 //@   requires c != nil && c.params != nil
 //@   requires wFinal[w] == 0 && wBody[w] == 0
 //@   modifies c.rec, c.req, c.w, c.cachedQuery, c.scope, *c.params
